@@ -118,6 +118,48 @@ Section DlogProofs.
     replace (c0 * x - d - c' * x') with (r + c0 * x - (r + d + c' * x')) by lia. exact E.
   Qed.
 
+  (** Mutation of the BASE POINT: the honest proof (t, s) for y = x*B is checked against the base point B' = b*B (every
+      point of a group of prime order is such a multiple), under any transcript prefix.  Acceptance forces the fresh
+      challenge c' -- the oracle value on a query that contains B' -- to satisfy one explicit linear equation. *)
+  Lemma dlog_base_mutation_char_lem x r B pre b pre' : full_order B ->
+    let t := g_smul O r B in let y := g_smul O x B in
+    let c0 := fst (fiat_shamir G O H q y t B pre) in
+    let s := (r + c0 * x) mod q in
+    let B' := g_smul O b B in
+    let c' := fst (fiat_shamir G O H q y t B' pre') in
+    fst (verify G O H q (t, s) y B' pre') = true -> ((r + c0 * x) * b - r - c' * x) mod q = 0.
+  Proof.
+    intros HB t y c0 s B' c' E. rewrite verify_fst in E. fold c' in E.
+    apply (gl_eqb q O laws) in E. unfold B', t, y in E.
+    rewrite <- (gl_smul_mul q O laws), <- (gl_smul_mul q O laws), <- (gl_smul_add q O laws) in E.
+    apply smul_eq_diff in E; [|exact HB].
+    unfold s in E. rewrite <- Zminus_mod_idemp_l, Zmult_mod_idemp_l, Zminus_mod_idemp_l in E.
+    replace ((r + c0 * x) * b - r - c' * x) with ((r + c0 * x) * b - (r + c' * x)) by lia. exact E.
+  Qed.
+
+  (** ... so for a prime order, x <> 0: the swapped base point is accepted only if c' is the single value
+      ((r + c0 x) b - r) / x, fixed before the oracle was asked about B'. *)
+  Lemma dlog_base_mutation_single_point_lem x r B pre b pre' c'' : prime q -> full_order B -> x mod q <> 0 ->
+    let t := g_smul O r B in let y := g_smul O x B in
+    let c0 := fst (fiat_shamir G O H q y t B pre) in
+    let s := (r + c0 * x) mod q in
+    let B' := g_smul O b B in
+    let c' := fst (fiat_shamir G O H q y t B' pre') in
+    fst (verify G O H q (t, s) y B' pre') = true ->
+    0 <= c'' < q -> ((r + c0 * x) * b - r - c'' * x) mod q = 0 -> c' = c''.
+  Proof.
+    intros Hp HB Hx t y c0 s B' c' E R2 M2.
+    pose proof (dlog_base_mutation_char_lem x r B pre b pre' HB E) as M1. cbv zeta in M1. fold t y c0 B' c' in M1.
+    apply Z.mod_divide in M1; [|lia]. apply Z.mod_divide in M2; [|lia].
+    assert (D : (q | (c'' - c') * x)).
+    { replace ((c'' - c') * x) with (((r + c0 * x) * b - r - c' * x) - ((r + c0 * x) * b - r - c'' * x)) by lia.
+      apply Z.divide_sub_r; assumption. }
+    destruct (prime_mult q Hp _ _ D) as [D1|D1].
+    - assert (R1 : 0 <= c' < q) by (unfold c', fiat_shamir; cbn [fst]; apply Z.mod_pos_bound; lia).
+      destruct D1 as [k D1]. assert (k = 0) by nia. lia.
+    - exfalso. apply Hx. apply Z.mod_divide; [lia|exact D1].
+  Qed.
+
   (** For a prime group order and x <> 0: a proof replayed under another transcript context (same
       statement, commitment, base) is accepted only if the two challenges collide. *)
   Lemma dlog_context_binding_lem x r B pre pre' : prime q -> full_order B -> x mod q <> 0 ->
